@@ -223,9 +223,9 @@ pub fn run(ctx: &mut Ctx) {
         "oracle: each handler invocation must be explained by a protocol-valid message (refpred.rs) literally present in the sent bytes at increasing offsets; resynchronisation after an error is the server's choice".into(),
         "out-of-bounds reads that do not change arguments are only visible in the ASan fuzz target (fuzz/), not here".into(),
     ];
-    let n = ctx.tier.pick(12_000u32, 400_000u32);
+    let n = ctx.tier.pick(12_000u32, 2_000_000u32);
     ctx.prop_check("streams", n, stream_case_strategy(), |ctx, c| run_stream_case(ctx, c));
-    let n = ctx.tier.pick(4_000u32, 100_000u32);
+    let n = ctx.tier.pick(4_000u32, 1_000_000u32);
     ctx.prop_check("raw_bytes", n, raw_case_strategy(), |ctx, c| run_raw_case(ctx, c));
     crate::fuzzing::corpus_check(ctx, "c05_stream");
     super::c05d::run_daemon_part(ctx);
